@@ -108,7 +108,13 @@ func checkC01(c *Ctx) error {
 		o.MainPkg = i%97 == 5
 		o.HostileAlias = i%5 == 1 // alias names taken from the collision space
 		conf := gen.Behaviour(r, o)
-		files := gen.Split(r, conf, i%3)
+		var flags []string
+		if i%7 == 3 {
+			// parameters / services that only exist at run time (OverrideParam, OverrideService): their definitions are
+			// removed (all parameters in a quarter of these cases), the references stay, the documented flags are given
+			flags = gen.Externalise(r, conf, (i/7)%4)
+		}
+		files := gen.Split(r, conf, i%4)
 		id := fmt.Sprintf("c%05d", i)
 		ops := []probe.Op{{Op: "new"}, {Op: "circular"}}
 		prev := ""
@@ -116,8 +122,11 @@ func checkC01(c *Ctx) error {
 			// the -o path already holds a longer Go file (the output of an earlier, bigger configuration)
 			prev = "package previous\n\n" + strings.Repeat("// line of the previous, longer output\nvar _ = 1\n", 6000)
 		}
-		units = append(units, &probe.Unit{ID: id, Cfg: conf, Files: files, Ops: ops, Previous: prev})
-		units = append(units, &probe.Unit{ID: id, Cfg: conf, Files: files, Stub: true, Previous: prev})
+		if flags != nil {
+			c.Add("units_with_definitions_left_to_run_time", 2)
+		}
+		units = append(units, &probe.Unit{ID: id, Cfg: conf, Files: files, Ops: ops, Previous: prev, Flags: flags})
+		units = append(units, &probe.Unit{ID: id, Cfg: conf, Files: files, Stub: true, Previous: prev, Flags: flags})
 	}
 	if err := runUnits(c, lab, units, false); err != nil {
 		return err
